@@ -37,9 +37,7 @@ Definition rng_push (e : rng_ev) (r : rng) : rng :=
   | _ => {| r_origin := r_origin r; r_evs := e :: r_evs r |}
   end.
 
-(* as coded: with temporal_cluster.score_metric = "silhouette" (not the default) every scoring of a candidate clustering
-   calls sklearn's silhouette_score(..., sample_size=10_000) without random_state, which takes a permutation from the
-   global generator; how many candidates are scored depends on the data *)
+(* a generator state nothing is known about (kept for histories that declare unmodelled draws) *)
 Definition rng_unknown : rng := {| r_origin := -1; r_evs := [] |}.
 
 (* ---- seeds and random_state values ---- *)
@@ -55,7 +53,8 @@ Inductive consumer :=
 Record hcfg := {
   h_id : Z;               (* identity of the remaining hourly settings (selection, adaptive weights, ...) *)
   h_recluster : nat;      (* temporal_cluster.recluster_count *)
-  h_silhouette : bool     (* temporal_cluster.score_metric = "silhouette" *)
+  h_silhouette : bool     (* temporal_cluster.score_metric = "silhouette" (since /repo 6be031d0 silhouette_score gets
+                             random_state=0; before, it drew from the global generator during a seeded fit) *)
 }.
 
 Fixpoint kmeans_consumers (base : sd) (i : Z) (n : nat) : list consumer :=
@@ -75,17 +74,38 @@ Inductive res :=
 | RPredict (r : res)
 | RNothing.
 
+(* ---- an HourlyModel object that has been constructed (its settings object lives from construction on) ----
+   BaseHourlySettings._check_seed writes the effective seed onto the object itself and onto ITS nested elasticnet /
+   temporal_cluster settings objects (built per instance: default_factory).  HourlyModel.__init__ hands
+   settings.elasticnet._seed to ElasticNet at construction; the clustering reads settings.temporal_cluster._seed at fit(). *)
+Record hobj := {
+  ob_cfg : hcfg;
+  ob_seed : option Z;     (* the settings field `seed` *)
+  ob_en : sd;             (* random_state ElasticNet was constructed with *)
+  ob_eff : sd;            (* the _seed currently stored on the object's own settings (read by the clustering at fit) *)
+  ob_fitted : bool
+}.
+
+Fixpoint set_nth {A : Type} (k : nat) (x : A) (l : list A) : list A :=
+  match l, k with
+  | [], _ => []
+  | _ :: rest, O => x :: rest
+  | a :: rest, S k' => a :: set_nth k' x rest
+  end.
+
 (* ---- global state of one process ---- *)
 Record gstate := {
   g_rng : rng;
   g_threads : Z;            (* BLAS/OpenMP pool size, fixed when the process starts *)
   g_ct_default : list Z;    (* contents of the shared default list warnings=[] of CalTRACKHourlyModelResults *)
   g_warm : list family;     (* code paths that have run *)
-  g_models : list res       (* result of every operation so far, oldest first *)
+  g_models : list res;      (* result of every operation so far, oldest first *)
+  g_objs : list hobj        (* the HourlyModel objects constructed so far (NewHourly, FromJson), oldest first *)
 }.
 
 Definition init (pid threads : Z) : gstate :=
-  {| g_rng := rng_start pid; g_threads := threads; g_ct_default := []; g_warm := []; g_models := [] |}.
+  {| g_rng := rng_start pid; g_threads := threads; g_ct_default := []; g_warm := []; g_models := [];
+     g_objs := [] |}.
 
 Inductive op :=
 | FitDaily (d cfg : Z)
@@ -95,11 +115,42 @@ Inductive op :=
 | Predict (k : nat)          (* predict, on its fixed reporting set, with the model returned by operation k of this process *)
 | RngSeed (k : Z)
 | RngRandom (n : Z)
-| Unrelated (draws : bool).  (* python's random, data objects, reload, sorting ...; draws: also np.random.random(3) *)
+| Unrelated (draws : bool)   (* python's random, data objects, reload, sorting ...; draws: also np.random.random(3) *)
+(* the life cycle of an hourly model taken apart: objects are constructed first and used later *)
+| NewHourly (c : hcfg) (seed : option Z)   (* HourlyModel(settings=...): object number length(g_objs) *)
+| FitObj (k : nat) (d : Z)                 (* object k: fit(data d), then to_json() and the fixed prediction are taken *)
+| ToJson (k : nat)                         (* object k (fitted): to_json() *)
+| FromJson (k : nat).                      (* HourlyModel.from_json(object k .to_json()): a new object *)
 
 Definition with_result (s : gstate) (r : rng) (w : list family) (x : res) : gstate * res :=
   ({| g_rng := r; g_threads := g_threads s; g_ct_default := g_ct_default s; g_warm := w;
-      g_models := g_models s ++ [x] |}, x).
+      g_models := g_models s ++ [x]; g_objs := g_objs s |}, x).
+
+Definition with_objs (p : gstate * res) (objs : list hobj) : gstate * res :=
+  ({| g_rng := g_rng (fst p); g_threads := g_threads (fst p); g_ct_default := g_ct_default (fst p);
+      g_warm := g_warm (fst p); g_models := g_models (fst p); g_objs := objs |}, snd p).
+
+(* to_json() of an object re-runs the settings' after-validator (SerializeModel(settings=self.settings)): with a seed
+   in the settings nothing changes; without, the object's _seed is replaced by a new draw *)
+Definition revalidate (r : rng) (o : hobj) : rng * hobj :=
+  match ob_seed o with
+  | Some _ => (r, o)
+  | None => (rng_push EvRandint r,
+             {| ob_cfg := ob_cfg o; ob_seed := None; ob_en := ob_en o; ob_eff := SdDraw r; ob_fitted := ob_fitted o |})
+  end.
+
+Definition new_obj (r : rng) (c : hcfg) (seed : option Z) : rng * hobj :=
+  match seed with
+  | Some z => (r, {| ob_cfg := c; ob_seed := seed; ob_en := SdLit z; ob_eff := SdLit z; ob_fitted := false |})
+  | None => (rng_push EvRandint r,
+             {| ob_cfg := c; ob_seed := None; ob_en := SdDraw r; ob_eff := SdDraw r; ob_fitted := false |})
+  end.
+
+Definition obj_consumers (o : hobj) : list consumer :=
+  CElasticNet (Some (ob_en o, 0)) :: kmeans_consumers (ob_eff o) 0 (h_recluster (ob_cfg o)).
+
+Definition mark_fitted (o : hobj) : hobj :=
+  {| ob_cfg := ob_cfg o; ob_seed := ob_seed o; ob_en := ob_en o; ob_eff := ob_eff o; ob_fitted := true |}.
 
 (* as coded: 1 when the linear algebra of the family is sensitive to the pool size, i.e. only CalTRACK hourly
    (statsmodels WLS -> LAPACK); daily/billing use numba + NLopt, hourly uses coordinate descent and small SVDs *)
@@ -111,15 +162,14 @@ Definition step (s : gstate) (o : op) : gstate * res :=
   | FitDaily d cfg => with_result s (g_rng s) (Daily :: g_warm s) (RFit Daily d cfg (thread_class Daily (g_threads s)) [])
   | FitBilling d cfg => with_result s (g_rng s) (Billing :: g_warm s) (RFit Billing d cfg (thread_class Billing (g_threads s)) [])
   | FitHourly d c (Some z) =>
-      with_result s (if h_silhouette c then rng_unknown else g_rng s) (Hourly :: g_warm s)
+      with_result s (g_rng s) (Hourly :: g_warm s)
         (RFit Hourly d (h_id c) (thread_class Hourly (g_threads s)) (hourly_consumers c (SdLit z)))
   | FitHourly d c None =>
       (* the operation is construct + fit + to_json + predict.  As coded, the generator is consulted TWICE: once by
          _check_seed when the settings are constructed (this draw is the seed of the fit), and once more by to_json(),
          whose SerializeModel(settings=self.settings, ..) runs the settings' after-validator _check_seed again (the
          model's _seed is replaced by a new draw after serialisation; nothing of the fitted model depends on it) *)
-      with_result s (if h_silhouette c then rng_unknown else rng_push EvRandint (rng_push EvRandint (g_rng s)))
-        (Hourly :: g_warm s)
+      with_result s (rng_push EvRandint (rng_push EvRandint (g_rng s))) (Hourly :: g_warm s)
         (RFit Hourly d (h_id c) (thread_class Hourly (g_threads s)) (hourly_consumers c (SdDraw (g_rng s))))
   | FitCalTrack d =>
       (* every CalTRACKHourlyModelResults of the fit path is built with an explicit warnings list:
@@ -135,7 +185,42 @@ Definition step (s : gstate) (o : op) : gstate * res :=
   | RngRandom n => with_result s (rng_push (EvRandom n) (g_rng s)) (g_warm s) RNothing
   | Unrelated true => with_result s (rng_push (EvRandom 3) (g_rng s)) (g_warm s) RNothing
   | Unrelated false => with_result s (g_rng s) (g_warm s) RNothing
+  | NewHourly c seed =>
+      let '(r, o) := new_obj (g_rng s) c seed in
+      with_objs (with_result s r (g_warm s) RNothing) (g_objs s ++ [o])
+  | FitObj k d =>
+      match nth_error (g_objs s) k with
+      | None => with_result s (g_rng s) (g_warm s) RNothing
+      | Some o =>
+          (* the fit reads ONLY the object's own settings; the observation (to_json) re-validates them *)
+          let x := RFit Hourly d (h_id (ob_cfg o)) (thread_class Hourly (g_threads s)) (obj_consumers o) in
+          let '(r, o') := revalidate (g_rng s) (mark_fitted o) in
+          with_objs (with_result s r (Hourly :: g_warm s) x) (set_nth k o' (g_objs s))
+      end
+  | ToJson k =>
+      match nth_error (g_objs s) k with
+      | Some o =>
+          if ob_fitted o then
+            let '(r, o') := revalidate (g_rng s) o in
+            with_objs (with_result s r (g_warm s) RNothing) (set_nth k o' (g_objs s))
+          else with_result s (g_rng s) (g_warm s) RNothing
+      | None => with_result s (g_rng s) (g_warm s) RNothing
+      end
+  | FromJson k =>
+      match nth_error (g_objs s) k with
+      | Some o =>
+          if ob_fitted o then
+            let '(r, o') := revalidate (g_rng s) o in
+            let '(r2, n) := new_obj r (ob_cfg o) (ob_seed o) in
+            with_objs (with_result s r2 (g_warm s) RNothing) (set_nth k o' (g_objs s) ++ [n])
+          else with_result s (g_rng s) (g_warm s) RNothing
+      | None => with_result s (g_rng s) (g_warm s) RNothing
+      end
   end.
+
+(* does the operation use object k (everything else must leave it alone) *)
+Definition touches (o : op) (k : nat) : bool :=
+  match o with FitObj j _ | ToJson j | FromJson j => Nat.eqb j k | _ => false end.
 
 (* a history: final state and the result of every operation, in order *)
 Fixpoint run (s : gstate) (h : list op) : gstate * list res :=
@@ -161,7 +246,7 @@ Definition seeded (o : op) : bool :=
 (* ... and which, as coded, leaves numpy's global generator where it was *)
 Definition rng_clean (o : op) : bool :=
   match o with
-  | FitHourly _ c (Some _) => negb (h_silhouette c)
+  | FitHourly _ _ (Some _) => true
   | FitDaily _ _ | FitBilling _ _ | FitCalTrack _ | Predict _ | Unrelated false => true
   | _ => false
   end.
